@@ -136,6 +136,82 @@ def tables():
     return '\n'.join(out) + '\n'
 
 
+def lstr(x):
+    """a string as a list of character codes (Nat literals are fast in the kernel, Char is not)"""
+    return '[%s]' % ', '.join(str(ord(c)) for c in x)
+
+
+def caldb_table():
+    """The CALDB directory listing and the name-composition constants, as Lean literals (C12)."""
+    import ixpeobssim
+    from ixpeobssim.irf import caldb, legacy
+    root = os.path.join(os.path.dirname(ixpeobssim.__file__), 'caldb', 'ixpe')
+    folders = caldb.__dict__['__CALDB_FOLDER_DICT']
+    out = ['/-! Generated by translator/gen.py from the /repo working tree (directory listing of ixpeobssim/caldb and constants of irf/caldb.py, irf/legacy.py) — do not edit. -/',
+           'set_option maxRecDepth 100000', 'namespace Gen', '']
+    out.append('/-- `__CALDB_FOLDER_DICT`: irf type -> folder (relative to caldb/ixpe) -/')
+    out.append('def caldbFolders : List (List Nat × List Nat) := [%s]' % ', '.join('(%s, %s)' % (lstr(k), lstr('/'.join(v))) for k, v in folders.items()))
+    out.append('def validWeightNames : List (List Nat) := [%s]' % ', '.join(lstr(x) for x in caldb.VALID_WEIGHT_NAMES))
+    out.append('def supportedSimpleTypes : List (List Nat) := [%s]' % ', '.join(lstr(x) for x in caldb.SUPPORTED_SIMPLE_IRF_TYPES))
+    out.append('def supportedGrayTypes : List (List Nat) := [%s]' % ', '.join(lstr(x) for x in caldb.SUPPORTED_GRAY_IRF_TYPES))
+    out.append('def legacyNames : List (List Nat × List Nat) := [%s]' % ', '.join('(%s, %s)' % (lstr(k), lstr(v)) for k, v in legacy._LEGACY_IRF_NAME_DICT.items()))
+    listing = []
+    for t, parts in sorted(folders.items()):
+        d = os.path.join(root, *parts)
+        if os.path.isdir(d):
+            for f in sorted(os.listdir(d)):
+                listing.append(('/'.join(parts), f))
+    # the IRF names present in the CALDB: from the plain (unweighted-suffix-free, no gray) arf files of DU 1; completeness is *proved* (no_orphans), not trusted
+    import re
+    names = set()
+    arfdir = os.path.join(root, *folders['arf'])
+    for f in sorted(os.listdir(arfdir)):
+        m = re.match(r'^(ixpe)_d1_(.+)_v(\d+)\.arf$', f)
+        if m and 'simple' not in m.group(2) and 'gray' not in m.group(2):
+            names.add((m.group(1), m.group(2), int(m.group(3))))
+    out.append('/-- (base, intent, version) of every response set shipped -/')
+    out.append('def irfNames : List (List Nat × List Nat × Nat) := [%s]' % ', '.join('(%s, %s, %d)' % (lstr(a), lstr(b), c) for a, b, c in sorted(names)))
+    out.append('-- caldbListing (below): every file under the CALDB folders known to `__CALDB_FOLDER_DICT`: (folder, file name)')
+    # untrusted witnesses, checked by the kernel in Props/C12.lean:
+    #  * for every file under a loader folder, a configuration (name index, du, type index, simple, gray) that composes it
+    #  * for every plain configuration (no flags), the index of its file in the listing
+    TYPES = ['arf', 'mrf', 'modf', 'rmf', 'vign', 'psf']
+    nl = sorted(names)
+    comp = {}
+    for ni, (b, it, v) in enumerate(nl):
+        for du in (1, 2, 3):
+            for ti, t in enumerate(TYPES):
+                for sflag in (False, True):
+                    for gflag in (False, True):
+                        try:
+                            f = caldb.irf_file_name(b, du, t, it, v, sflag, gflag)
+                        except RuntimeError:
+                            continue
+                        comp.setdefault(('/'.join(folders[t]), f), (ni, du, ti, int(sflag), int(gflag)))
+    lfold = set('/'.join(folders[t]) for t in TYPES)
+    wit = [comp.get(p, (9999, 0, 0, 0, 0)) for p in listing if p[0] in lfold]
+    out.append('/-- witness configurations (name index, du, type index, simple, gray), one per file under the loader folders, in listing order -/')
+    out.append('def orphanWitness : List (Nat × Nat × Nat × Nat × Nat) := [%s]' % ', '.join('(%d, %d, %d, %d, %d)' % w for w in wit))
+    idx = {p: i for i, p in enumerate(listing)}
+    plain = []
+    for ni, (b, it, v) in enumerate(nl):
+        for du in (1, 2, 3):
+            for ti, t in enumerate(TYPES):
+                plain.append(idx.get(('/'.join(folders[t]), caldb.irf_file_name(b, du, t, it, v)), 99999))
+    out.append('/-- listing index of the file of every plain configuration, in the order names × du × types -/')
+    out.append('def plainWitness : List Nat := [%s]' % ', '.join(map(str, plain)))
+    CH = 30
+    chunks = [listing[i:i + CH] for i in range(0, len(listing), CH)]
+    for k, ch in enumerate(chunks):
+        out.append('def caldbListing_%d : List (List Nat × List Nat) := [' % k)
+        out.append(',\n'.join('  (%s, %s)' % (lstr(a), lstr(b)) for a, b in ch))
+        out.append(']')
+    out.append('def caldbListing : List (List Nat × List Nat) := %s' % ' ++ '.join('caldbListing_%d' % k for k in range(len(chunks))))
+    out.append('')
+    out.append('end Gen')
+    return '\n'.join(out) + '\n'
+
+
 def main():
     update = '--update-golden' in sys.argv
     golden = json.load(open(GOLDEN)) if os.path.exists(GOLDEN) else {}
@@ -197,6 +273,10 @@ def main():
         changed |= write_if_changed(os.path.join(GEN, 'Tables.lean'), tables())
     except Exception as e:
         status['tables'] = 'failed: %s' % e
+    try:
+        changed |= write_if_changed(os.path.join(GEN, 'Caldb.lean'), caldb_table())
+    except Exception as e:
+        status['caldb'] = 'failed: %s' % e
     status['changed'] = changed
     json.dump(status, open(os.path.join(HERE, 'gen_status.json'), 'w'), indent=1, default=str)
     if update:
